@@ -85,6 +85,26 @@ merge_error(int p1, int p2, int p3, int reason)
  * why, this doesn't seem consistent with that it's *not* OK for both to add
  * a new key mapping to the same value).
  */
+/* Did a transaction leave the value alone?  1 yes, 0 no, -1 error.
+ * The merge only needs equality.  Object values are compared with ==:
+ * ordering them (as TEST_VALUE does) fails for values that define no order
+ * (dicts, say), and that error used to be ignored and left pending.
+ */
+static int
+merge_same_value(VALUE_TYPE a, VALUE_TYPE b)
+{
+#ifdef VALUE_TYPE_IS_PYOBJECT
+  return PyObject_RichCompareBool(a, b, Py_EQ);
+#else
+  return TEST_VALUE(a, b) == 0;
+#endif
+}
+
+/* Set SAME to whether the values are the same (always, for sets). */
+#define MERGE_SAME_VALUE_OR(SAME, A, B) \
+  if (set) SAME = 1; \
+  else if ((SAME = merge_same_value((A), (B))) < 0)
+
 static PyObject *
 bucket_merge(Bucket *s1, Bucket *s2, Bucket *s3)
 {
@@ -92,6 +112,7 @@ bucket_merge(Bucket *s1, Bucket *s2, Bucket *s3)
   PyObject *s;
   SetIteration i1 = {0,0,0}, i2 = {0,0,0}, i3 = {0,0,0};
   int cmp12, cmp13, cmp23, mapping, set;
+  int same12, same13;
 
   /* If either "after" bucket is empty, punt. */
   if (s2->len == 0 || s3->len == 0)
@@ -133,7 +154,6 @@ bucket_merge(Bucket *s1, Bucket *s2, Bucket *s3)
   /* Consult zodb/btrees/interfaces.py for the meaning of the last
    * argument passed to merge_error().
    */
-  /* TODO:  This isn't passing on errors raised by value comparisons. */
   while (i1.position >= 0 && i2.position >= 0 && i3.position >= 0)
     {
       TEST_KEY_SET_OR(cmp12, i1.key, i2.key) goto err;
@@ -142,18 +162,23 @@ bucket_merge(Bucket *s1, Bucket *s2, Bucket *s3)
         {
           if (cmp13==0)
             {
-              if (set || (TEST_VALUE(i1.value, i2.value) == 0))
+              MERGE_SAME_VALUE_OR(same12, i1.value, i2.value) goto err;
+              if (same12)
                 {               /* change in i3 value or all same */
                   if (merge_output(r, &i3, mapping) < 0) goto err;
                 }
-              else if (set || (TEST_VALUE(i1.value, i3.value) == 0))
-                {               /* change in i2 value */
-                  if (merge_output(r, &i2, mapping) < 0) goto err;
-                }
               else
-                {               /* conflicting value changes in i2 and i3 */
-                  merge_error(i1.position, i2.position, i3.position, 1);
-                  goto err;
+                {
+                  MERGE_SAME_VALUE_OR(same13, i1.value, i3.value) goto err;
+                  if (same13)
+                    {           /* change in i2 value */
+                      if (merge_output(r, &i2, mapping) < 0) goto err;
+                    }
+                  else
+                    {           /* conflicting value changes in i2 and i3 */
+                      merge_error(i1.position, i2.position, i3.position, 1);
+                      goto err;
+                    }
                 }
               if (i1.next(&i1) < 0) goto err;
               if (i2.next(&i2) < 0) goto err;
@@ -164,8 +189,15 @@ bucket_merge(Bucket *s1, Bucket *s2, Bucket *s3)
               if (merge_output(r, &i3, mapping) < 0) goto err;
               if (i3.next(&i3) < 0) goto err;
             }
-          else if (set || (TEST_VALUE(i1.value, i2.value) == 0))
-            {                   /* deleted in i3 */
+          else
+            {
+              MERGE_SAME_VALUE_OR(same12, i1.value, i2.value) goto err;
+              if (!same12)
+                {               /* conflicting del in i3 and change in i2 */
+                  merge_error(i1.position, i2.position, i3.position, 2);
+                  goto err;
+                }
+              /* deleted in i3 */
               if (i3.position == 1)
                 {
                   /* Deleted the first item.  This will modify the
@@ -178,11 +210,6 @@ bucket_merge(Bucket *s1, Bucket *s2, Bucket *s3)
               if (i1.next(&i1) < 0) goto err;
               if (i2.next(&i2) < 0) goto err;
             }
-          else
-            {                   /* conflicting del in i3 and change in i2 */
-              merge_error(i1.position, i2.position, i3.position, 2);
-              goto err;
-            }
         }
       else if (cmp13 == 0)
         {
@@ -191,8 +218,15 @@ bucket_merge(Bucket *s1, Bucket *s2, Bucket *s3)
               if (merge_output(r, &i2, mapping) < 0) goto err;
               if (i2.next(&i2) < 0) goto err;
             }
-          else if (set || (TEST_VALUE(i1.value, i3.value) == 0))
-            {                   /* deleted in i2 */
+          else
+            {
+              MERGE_SAME_VALUE_OR(same13, i1.value, i3.value) goto err;
+              if (!same13)
+                {               /* conflicting del in i2 and change in i3 */
+                  merge_error(i1.position, i2.position, i3.position, 3);
+                  goto err;
+                }
+              /* deleted in i2 */
               if (i2.position == 1)
                 {
                   /* Deleted the first item.  This will modify the
@@ -204,11 +238,6 @@ bucket_merge(Bucket *s1, Bucket *s2, Bucket *s3)
                 }
               if (i1.next(&i1) < 0) goto err;
               if (i3.next(&i3) < 0) goto err;
-            }
-          else
-            {                   /* conflicting del in i2 and change in i3 */
-              merge_error(i1.position, i2.position, i3.position, 3);
-              goto err;
             }
         }
       else
@@ -273,15 +302,21 @@ bucket_merge(Bucket *s1, Bucket *s2, Bucket *s3)
           if (merge_output(r, &i2, mapping) < 0) goto err;
           if (i2.next(&i2) < 0) goto err;
         }
-      else if (cmp12==0 && (set || (TEST_VALUE(i1.value, i2.value) == 0)))
-        {                       /* delete i3 */
+      else
+        {
+          same12 = 0;
+          if (cmp12 == 0)
+            {
+              MERGE_SAME_VALUE_OR(same12, i1.value, i2.value) goto err;
+            }
+          if (!same12)
+            {                   /* Dueling deletes or delete and change */
+              merge_error(i1.position, i2.position, i3.position, 7);
+              goto err;
+            }
+          /* delete i3 */
           if (i1.next(&i1) < 0) goto err;
           if (i2.next(&i2) < 0) goto err;
-        }
-      else
-        {                       /* Dueling deletes or delete and change */
-          merge_error(i1.position, i2.position, i3.position, 7);
-          goto err;
         }
     }
 
@@ -293,15 +328,21 @@ bucket_merge(Bucket *s1, Bucket *s2, Bucket *s3)
           if (merge_output(r, &i3, mapping) < 0) goto err;
           if (i3.next(&i3) < 0) goto err;
         }
-      else if (cmp13==0 && (set || (TEST_VALUE(i1.value, i3.value) == 0)))
-        {                       /* delete i2 */
+      else
+        {
+          same13 = 0;
+          if (cmp13 == 0)
+            {
+              MERGE_SAME_VALUE_OR(same13, i1.value, i3.value) goto err;
+            }
+          if (!same13)
+            {                   /* Dueling deletes or delete and change */
+              merge_error(i1.position, i2.position, i3.position, 8);
+              goto err;
+            }
+          /* delete i2 */
           if (i1.next(&i1) < 0) goto err;
           if (i3.next(&i3) < 0) goto err;
-        }
-      else
-        {                       /* Dueling deletes or delete and change */
-          merge_error(i1.position, i2.position, i3.position, 8);
-          goto err;
         }
     }
 
